@@ -78,7 +78,7 @@ Definition node_ok (t : tree) : bool :=
   end.
 
 (* every record of the tree is an instance of its kind: the fields of the
-   schema in order, children of admitted kinds, required fields present *)
+   schema in order, children of allowed kinds, required fields present *)
 Definition hyp (t : tree) : bool := forallb node_ok (subtrees t).
 
 Definition no_kind (exc : list N) (t : tree) : bool :=
